@@ -445,6 +445,16 @@ fn c06_positions() -> Vec<(&'static str, &'static str, Extract, usize)> {
         ("expr-bare", "RX({}) 0", |p| match first_body(p) { Some(Instruction::Gate(g)) => { let mut o = vec![]; for e in &g.parameters { expr_names(e, &mut o) } o } _ => vec![] }, 1),
         ("expr-indexed", "RX({}[0]) 0", |p| match first_body(p) { Some(Instruction::Gate(g)) => { let mut o = vec![]; for e in &g.parameters { expr_names(e, &mut o) } o } _ => vec![] }, 1),
         ("expr-nested", "RX(2*{}+sin(-{}[1])) 0", |p| match first_body(p) { Some(Instruction::Gate(g)) => { let mut o = vec![]; for e in &g.parameters { expr_names(e, &mut o) } o } _ => vec![] }, 2),
+        ("expr-tight-minus", "RX({}-(1)) 0", |p| match first_body(p) { Some(Instruction::Gate(g)) => { let mut o = vec![]; for e in &g.parameters { expr_names(e, &mut o) } o } _ => vec![] }, 1),
+        ("expr-tight-double-minus", "RX({}--(0.5)) 0", |p| match first_body(p) { Some(Instruction::Gate(g)) => { let mut o = vec![]; for e in &g.parameters { expr_names(e, &mut o) } o } _ => vec![] }, 1),
+        ("expr-tight-double-minus-space", "RX(2*{}-- 1) 0", |p| match first_body(p) { Some(Instruction::Gate(g)) => { let mut o = vec![]; for e in &g.parameters { expr_names(e, &mut o) } o } _ => vec![] }, 1),
+        ("expr-tight-plus", "RX({}+1) 0", |p| match first_body(p) { Some(Instruction::Gate(g)) => { let mut o = vec![]; for e in &g.parameters { expr_names(e, &mut o) } o } _ => vec![] }, 1),
+        ("expr-tight-star", "RX({}*2) 0", |p| match first_body(p) { Some(Instruction::Gate(g)) => { let mut o = vec![]; for e in &g.parameters { expr_names(e, &mut o) } o } _ => vec![] }, 1),
+        ("expr-tight-slash", "RX({}/2) 0", |p| match first_body(p) { Some(Instruction::Gate(g)) => { let mut o = vec![]; for e in &g.parameters { expr_names(e, &mut o) } o } _ => vec![] }, 1),
+        ("expr-tight-caret", "RX({}^2) 0", |p| match first_body(p) { Some(Instruction::Gate(g)) => { let mut o = vec![]; for e in &g.parameters { expr_names(e, &mut o) } o } _ => vec![] }, 1),
+        ("expr-tight-after-minus", "RX(1-{}) 0", |p| match first_body(p) { Some(Instruction::Gate(g)) => { let mut o = vec![]; for e in &g.parameters { expr_names(e, &mut o) } o } _ => vec![] }, 1),
+        ("expr-tight-double-prefix", "RX(--{}) 0", |p| match first_body(p) { Some(Instruction::Gate(g)) => { let mut o = vec![]; for e in &g.parameters { expr_names(e, &mut o) } o } _ => vec![] }, 1),
+        ("expr-tight-index-minus", "RX({}[1]--(1)) 0", |p| match first_body(p) { Some(Instruction::Gate(g)) => { let mut o = vec![]; for e in &g.parameters { expr_names(e, &mut o) } o } _ => vec![] }, 1),
         ("expr-variable", "RX(%{}) 0", |p| match first_body(p) { Some(Instruction::Gate(g)) => { let mut o = vec![]; for e in &g.parameters { expr_names(e, &mut o) } o } _ => vec![] }, 1),
         ("set-phase", "SET-PHASE 0 \"f\" 2*{}", |p| match first_body(p) { Some(Instruction::SetPhase(s)) => { let mut o = vec![]; expr_names(&s.phase, &mut o); o } _ => vec![] }, 1),
         ("shift-frequency", "SHIFT-FREQUENCY 0 \"f\" {}", |p| match first_body(p) { Some(Instruction::ShiftFrequency(s)) => { let mut o = vec![]; expr_names(&s.frequency, &mut o); o } _ => vec![] }, 1),
@@ -518,7 +528,7 @@ pub static C06: PropDef = PropDef {
     id: "C06",
     level: "exploration",
     engine: "sweep",
-    rule: "8 names (thorough: every valid user identifier of length <= 3 over {a,B,_,-,1} as well) x 42 name-bearing positions (declarations, every classical operand, bare / indexed / nested memory names and variables in expressions of gates, SET-*, SHIFT-*, DELAY, waveform names and parameters, frame attribute keys, labels and jump targets, gate / DEFGATE / DEFCIRCUIT / DEFCAL / DEFWAVEFORM names, parameters and qubit variables, pragma, CALL, LOAD/STORE, measurement names and targets, extern parameter names); the name found in the AST must equal the source spelling byte for byte; plus the consistency program (all references to one region carry the same name, type check accepts). non-trivial = accepted (name, position) pair",
+    rule: "8 names (thorough: every valid user identifier of length <= 3 over {a,B,_,-,1} as well) x 52 name-bearing positions (declarations, every classical operand, bare / indexed / nested memory names and variables in expressions of gates, a name written tightly against every infix / prefix operator and against runs of dashes (`NAME--(0.5)`, `2*NAME-- 1`), SET-*, SHIFT-*, DELAY, waveform names and parameters, frame attribute keys, labels and jump targets, gate / DEFGATE / DEFCIRCUIT / DEFCAL / DEFWAVEFORM names, parameters and qubit variables, pragma, CALL, LOAD/STORE, measurement names and targets, extern parameter names); the name found in the AST must equal the source spelling byte for byte; plus the consistency program (all references to one region carry the same name, type check accepts). non-trivial = accepted (name, position) pair",
     assumptions: &["names whose lower-case form is pi, i, sin, cos, sqrt, exp, cis are excluded (the statement's exception)"],
     run: |ctx| {
         let names = c06_names(ctx.tier);
